@@ -115,7 +115,7 @@ impl<'a> G<'a> {
             let mut n = match k {
                 0..=4 => return N::T(self.text()),
                 5 if f.br => N::el("br", vec![]),
-                6 if f.inline => N::el(*self.r.pick(&["em", "i", "em"]), self.inlines(depth + 1)),
+                6 if f.inline => N::el(*self.r.pick(&["em", "i", "em", "ins"]), self.inlines(depth + 1)),
                 7 if f.inline => N::el("strong", self.inlines(depth + 1)),
                 8 if f.inline => N::el("code", self.inlines(depth + 1)),
                 9 if f.strike => N::el(*self.r.pick(&["s", "del"]), self.inlines(depth + 1)),
@@ -285,6 +285,11 @@ impl<'a> G<'a> {
                     else { let k = self.pre_kids(); N::el("pre", k) }
                 }
                 10 if f.tables && self.in_table < 2 => return self.table(depth),
+                11 if f.stray && self.r.chance(1, 4) => {
+                    // an inline element closed inside a block that was opened after it: the parser repairs it
+                    let (inl, blk) = (*self.r.pick(&["em", "strong", "code", "s", "b"]), *self.r.pick(&["p", "div", "blockquote"]));
+                    N::Raw(format!("<{inl}><{blk}>{} {}</{inl}> {}</{blk}>", self.token(), self.token(), self.token()))
+                }
                 11 => N::el(*self.r.pick(&["section", "article", "u", "center"]), self.flow(depth + 1)),
                 _ => continue,
             };
